@@ -541,7 +541,10 @@ def gen_case(rng, idx):
         feat.add('nodes-derived-by-rm')
     if not agents and rng.random() < 0.5:
         del cfg['agents']
-    rcfg['cores_per_node'] = cfg_cpn
+    # the platform file gives physical cores; what the launcher writes into
+    # the agent config (above) is scaled by the hardware threads per core
+    rcfg['cores_per_node'] = cfg_cpn // smt if smt > 1 and cfg_cpn % smt == 0 \
+                             else cfg_cpn
     rcfg['gpus_per_node']  = cfg_gpn
 
     if src == 'FORK' and not rcfg['fake_resources']:
